@@ -239,6 +239,17 @@ def run_model(chk, tier):
             "the consumer sits in its blocking read and a slot is set, a byte is in the pipe or an action is about to "
             "write one",
             applies=ok_shape, why_not="%s %s" % ({k: consts[k] for k in ("ActionOrder", "ConsumerOrder")}, stale))
+    if pid == "C11":
+        import inductive
+        ok_shape = (not stale and consts["ActionOrder"] == "store_then_wake"
+                    and consts["ConsumerOrder"] == "drain_then_scan" and consts["CloseOrder"] == "flag_then_wake")
+        inductive.tlaps_proof(
+            chk, "CloseProof.tla",
+            "Spec => [](NoLostWakeup /\\ CloseUnblocks /\\ ClosedSticky): for any number of delivering threads, signals and "
+            "threads calling close(), once some close() has completed a consumer sitting in its blocking read has a "
+            "byte to read",
+            applies=ok_shape,
+            why_not="%s %s" % ({k: consts[k] for k in ("ActionOrder", "ConsumerOrder", "CloseOrder")}, stale))
     if stale:
         return
     for what, cfg, tmo in model_configs(tier):
